@@ -205,6 +205,10 @@ def load_known():
         return json.load(fp)
 
 
+# replay paths of the VIOLATION lines printed by this process (the dispatcher needs them if a driver crashes afterwards)
+PRINTED_VIOLATIONS = []
+
+
 class Check:
     """One run of one property's check. Collects coverage, violations, writes evidence."""
 
@@ -273,6 +277,7 @@ class Check:
             json.dump({"property": self.pid, "key": key, "what": what, "replay": replay,
                        "seed": self.seed, "tier": self.tier}, fp, indent=1, default=str)
         self.violations.append((key, what, path))
+        PRINTED_VIOLATIONS.append(path)
         print("VIOLATION property=%s replay=%s" % (self.pid, path))
         print("  what: %s" % what)
         sys.stdout.flush()
@@ -312,7 +317,10 @@ class Check:
         }
         if self.machinery_errors:
             ev["coverage"]["machinery_errors"] = self.machinery_errors
-        path = os.path.join(VERIF, "evidence", self.pid + ".json")
+        # checks that are not about a listed property (growth of the specification) keep their evidence apart
+        sub = "evidence" if (self.pid[:1] == "C" and self.pid[1:].isdigit()) else "evidence_extra"
+        os.makedirs(os.path.join(VERIF, sub), exist_ok=True)
+        path = os.path.join(VERIF, sub, self.pid + ".json")
         with open(path, "w") as fp:
             json.dump(ev, fp, indent=1, default=str)
         print("%s tier=%s level=%s violations=%d known=%d wall=%.1fs evidence=%s" % (
